@@ -84,6 +84,7 @@ class Sim(object):
         # thread's line points without spending a placement on getting it started
         self.eager_start = eager_start
         self.point_owner = [] if record_points else None     # task id per line point
+        self.marks = {}               # name -> line-point index at the time of the (first) mark
         self.now = 0.0
         self.tasks = []
         self.current = None
@@ -196,6 +197,10 @@ class Sim(object):
         self.run.ev('pre', cur.id, name, os.path.basename(frame.f_code.co_filename), frame.f_lineno)
         self.run.say('switch %s->%s before %s:%d' % (cur.name, name, os.path.basename(frame.f_code.co_filename), frame.f_lineno))
         self._switch_to_candidate(cur, nxt)
+
+    def mark(self, name):
+        """Remember where in the sequence of line points the run is (harness bookkeeping, no scheduling point)."""
+        self.marks.setdefault(name, self.line_points)
 
     class _Quiet(object):
         def __init__(self, sim):
